@@ -8,7 +8,7 @@ MEM_GROUPS := a b c d e f
 MEM14_OBJS := $(B)/mem14/memsim_main.o $(foreach g,$(MEM_GROUPS),$(B)/mem14/group_$(g).o)
 MEM17_OBJS := $(B)/mem17/memsim_main.o $(foreach g,$(MEM_GROUPS),$(B)/mem17/group_$(g).o)
 
-IO_FORMATS ?= bmp pnm targa
+IO_FORMATS ?= bmp pnm targa png jpeg tiff
 IO_SRCS := iosim_main wraps $(foreach f,$(IO_FORMATS),fmt_$(f))
 IOA_OBJS := $(foreach s,$(IO_SRCS),$(B)/ioA/$(s).o)
 IOB_OBJS := $(foreach s,$(IO_SRCS),$(B)/ioB/$(s).o)
@@ -25,6 +25,16 @@ $(B)/ioA/%.o: sim/io/%.cpp Makefile
 $(B)/ioB/%.o: sim/io/%.cpp Makefile
 	@mkdir -p $(@D)
 	@$(CXX) -std=c++14 $(COMMON) $(IO_DEFS) -DSIM_POISON_BYTE=190 -ftrivial-auto-var-init=pattern -c $< -o $@ 2> $@.log || { cat $@.log | head -60; echo "BUILD-FAIL $@"; exit 1; }
+# un-instrumented build for the valgrind cross-check of the A/B oracle (tools/valgrind_check.py)
+IOP_OBJS := $(foreach s,$(IO_SRCS),$(B)/ioP/$(s).o)
+$(B)/ioP/%.o: sim/io/%.cpp Makefile
+	@mkdir -p $(@D)
+	@$(CXX) -std=c++14 -O1 -g1 -DNDEBUG -I$(REPO)/include -Wno-deprecated-declarations -MMD -MP $(IO_DEFS) -DSIM_POISON_BYTE=0 -DSIM_NO_POISON_FILL -c $< -o $@ 2> $@.log || { cat $@.log | head -60; echo "BUILD-FAIL $@"; exit 1; }
+$(B)/bin/iosimP: $(IOP_OBJS)
+	@mkdir -p $(@D)
+	@$(CXX) $^ -o $@ $(IO_LIBS)
+ioplain: $(B)/bin/iosimP
+
 $(B)/bin/iosimA: $(IOA_OBJS)
 	@mkdir -p $(@D)
 	@$(CXX) $(SAN) $^ -o $@ $(IO_LIBS)
